@@ -259,7 +259,9 @@ def merge_writes(evs):
 PROGRAM_SCENARIOS = {'add': 'add', 'add_flat': 'add', 'add_dup': 'add', 'add_big': 'add', 'loosen': 'add',
                      'pack': 'pack', 'pack_clean': 'pack', 'pack_small': 'pack', 'pack_auto': 'pack', 'pack_nofsync': 'pack',
                      'pack_nofsync_clean': 'pack', 'pack_novalidate': 'pack', 'pack_then_clean': 'pack', 'clean': 'clean', 'delete': 'delete',
-                     'repack': 'repack', 'repack_keep': 'repack'}
+                     'repack': 'repack', 'repack_keep': 'repack',
+                     'topack': 'addpack', 'topack_multi': 'addpack', 'topack_nofsync': 'addpack', 'topack_nh': 'addpack', 'topack_nh_rt0': 'addpack'}
+ADDPACK_FLAGS = {'topack': (0, 0), 'topack_multi': (0, 0), 'topack_nofsync': (0, 0), 'topack_nh': (1, 1), 'topack_nh_rt0': (1, 0)}
 
 
 def program_lines(name, ev, run, keys):
@@ -282,6 +284,54 @@ def program_lines(name, ev, run, keys):
         ks = [e.split(' ')[1] for e in ev if e.startswith('unlinkloose ')]
         vac = 1 if ev[:2] == ['commit', 'commit'] else 0
         lines.append((f'X clean {vac} ' + ','.join(ks)).rstrip())
+        return lines
+    if kind == 'addpack':
+        nh, twice = ADDPACK_FLAGS[name]
+        pre_packs = {k: bytes.fromhex(v) for k, v in run['pre']['packs'].items()}
+        cur = {}
+        segs = []
+        seg = None
+        for e in ev:
+            t = e.split(' ')
+            if t[0] == 'openpack':
+                seg = {'id': t[1], 'rows': [], 'dups': [], 'fsync': False}
+                segs.append(seg)
+                cur[t[1]] = bytearray(cur.get(t[1], pre_packs.get(t[1], b'')))
+            elif seg is None:
+                continue
+            elif t[0] == 'write' and t[1] == 'p':
+                cur[t[2]] += bytes.fromhex(t[3]) if t[3] != '-' else b''
+            elif t[0] == 'truncate':
+                pos = int(t[2])
+                tail = bytes(cur[t[1]][pos:])
+                cur[t[1]] = cur[t[1]][:pos]
+                if tail or pos < len(cur[t[1]]) + len(tail):
+                    seg['dups'].append((pos, tail))
+            elif t[0] == 'insert' and len(t) > 2:
+                seg['rows'] += t[2].split(';')
+            elif t[0] == 'fsync':
+                seg['fsync'] = True
+        for sg in segs:
+            items = []
+            comp_flag = None
+            for r in sg['rows']:
+                k, pid, off, ln, comp, size = r.split(',')
+                comp_flag = comp
+                data = bytes.fromhex(post['packs'].get(pid, ''))
+                # the row's bytes may have been cut away again if the row was IGNOREd? no: rows are only collected for objects kept in the pack
+                items.append((int(off), 1, f'{k},{hx(data[int(off):int(off) + int(ln)])},{comp},{size}'))
+            for pos, tail in sg['dups']:
+                if not tail:
+                    continue   # the final truncate() at the end of the pack
+                comp = comp_flag if comp_flag is not None else ('1' if name in ('topack',) else '0')
+                try:
+                    content = zlib.decompress(tail) if comp == '1' else tail
+                except zlib.error:
+                    content = tail
+                k = keys.id(store.H(HT, content))
+                items.append((pos, 0, f'{k},{hx(tail)},{comp},{len(content)}'))   # a duplicate written at pos precedes the new object that ends up there
+            items.sort(key=lambda x: (x[0], x[1]))
+            lines.append(f"X addpack {sg['id']} {nh} {twice} {1 if sg['fsync'] else 0} {';'.join(x[2] for x in items)}")
         return lines
     if kind == 'repack':
         # one program per pack in the order the implementation visited them (listdir order = oracle), then the final VACUUM
